@@ -26,6 +26,13 @@ pub mod parse;
 mod reader;
 mod util;
 
+/// Verification hook (`--cfg signalapp_mp4san_verif` only): the chunk readers of the private `reader` module, so that
+/// their `Read` / `Skip` implementations can be driven directly.
+#[cfg(signalapp_mp4san_verif)]
+pub mod verif_reader {
+    pub use crate::reader::{ChunkDataReader, ChunkReader};
+}
+
 use std::io::Read;
 use std::num::{NonZeroU16, NonZeroU32};
 
